@@ -1234,7 +1234,11 @@ class IterInventory:
         d = dotted(call.func) or ''
         base = call_name(call) or ''
         if base == 'sorted':
-            return ('sorted', 'sorted(...)')
+            key = [k.value for k in call.keywords if k.arg == 'key']
+            if key and not self._injective_key(f, key[0]):
+                # Python's sort is stable: elements with equal keys keep their (hash) order
+                return U('sorted(..., key=' + m.text(key[0], 30) + '): the key may tie, ties stay in hash order')
+            return ('sorted', 'sorted(...)' if not key else 'sorted(..., key=<injective: contains the element itself>)')
         if d in ORDER_FREE_DOTTED or (isinstance(call.func, ast.Name) and base in ORDER_FREE_FUNCS):
             return ('orderFree', f'{d or base}(...)')
         if base == 'join':
@@ -1262,6 +1266,30 @@ class IterInventory:
         if targets and viewed:
             return U(f'hash-ordered sequence passed to {base}(...)')
         return U(f'passed to {d or base or "a call"}(...) — not known to be order-free')
+
+    def _injective_key(self, f, key):
+        """the key function returns a tuple (or the bare value) that contains its argument itself"""
+        fn = None
+        if isinstance(key, ast.Lambda):
+            params = [a.arg for a in key.args.args]
+            rets = [key.body]
+        elif isinstance(key, ast.Name):
+            cands = [g for g in self.sc.by_fname.get(key.id, []) if g.mod is f.mod and (g.parent is f or g.parent is None)]
+            if len(cands) != 1:
+                return False
+            fn = cands[0]
+            params = fn.params
+            rets = [n.value for n in fn.nodes if isinstance(n, ast.Return)]
+        else:
+            return False
+        if len(params) != 1 or not rets:
+            return False
+        for r in rets:
+            ok = (isinstance(r, ast.Name) and r.id == params[0]) or \
+                 (isinstance(r, ast.Tuple) and any(isinstance(e, ast.Name) and e.id == params[0] for e in r.elts))
+            if not ok:
+                return False
+        return True
 
     def _join(self, f, call):
         """str.join(sep, <set>) / sep.join(<set>): hash-ordered text, unless it is a regex alternation used for match existence only"""
